@@ -102,3 +102,34 @@ package linkedlistqueue
 //@     invariant forall j :: old(iterator.index) < j && j <= iterator.index && j < len(Seq(iterator.queue)) ==> !f(j, Seq(iterator.queue)[j])
 //@     decreases len(Seq(iterator.queue)) - iterator.index
 
+// ---- JSON (C11 round trip, C12 replace / sound / atomic) ----
+
+//@ func Queue.ToJSON
+//@   requires Inv(queue)
+//@   modifies nothing
+//@   ensures [C11 C17 C18] result1 == nil && fresh(arr(result0)) && jarr_kind(result0, queue.list.first.value) == 3 && jarr_len(result0, queue.list.first.value) == len(Seq(queue))
+//@     && (forall i :: 0 <= i && i < len(Seq(queue)) ==> jarr_at(result0, i, queue.list.first.value) == Seq(queue)[i])
+
+//@ func Queue.MarshalJSON
+//@   requires Inv(queue)
+//@   modifies nothing
+//@   ensures [C11 C17 C18] result1 == nil && fresh(arr(result0)) && jarr_kind(result0, queue.list.first.value) == 3 && jarr_len(result0, queue.list.first.value) == len(Seq(queue))
+//@     && (forall i :: 0 <= i && i < len(Seq(queue)) ==> jarr_at(result0, i, queue.list.first.value) == Seq(queue)[i])
+
+//@ func Queue.FromJSON
+//@   requires Inv(queue)
+//@   modifies queue.list.first, queue.list.last, queue.list.size, queue.list.nodes
+//@   modifies each e like queue.list.first where e.owner == queue.list : e.next
+//@   ensures [C12 C17] Inv(queue) && (result == nil <==> jarr_kind(data, queue.list.first.value) >= 2)
+//@   ensures [C12] atomic: result != nil ==> Seq(queue) == old(Seq(queue))
+//@   ensures [C11 C12] loaded: jarr_kind(data, queue.list.first.value) == 3 ==> len(Seq(queue)) == jarr_len(data, queue.list.first.value) && (forall i :: 0 <= i && i < len(Seq(queue)) ==> Seq(queue)[i] == jarr_at(data, i, queue.list.first.value))
+//@   ensures [C12] null: jarr_kind(data, queue.list.first.value) == 2 ==> len(Seq(queue)) == 0
+
+//@ func Queue.UnmarshalJSON
+//@   requires Inv(queue)
+//@   modifies queue.list.first, queue.list.last, queue.list.size, queue.list.nodes
+//@   modifies each e like queue.list.first where e.owner == queue.list : e.next
+//@   ensures [C12 C17] Inv(queue) && (result == nil <==> jarr_kind(bytes, queue.list.first.value) >= 2)
+//@   ensures [C12] atomic: result != nil ==> Seq(queue) == old(Seq(queue))
+//@   ensures [C11 C12] loaded: jarr_kind(bytes, queue.list.first.value) == 3 ==> len(Seq(queue)) == jarr_len(bytes, queue.list.first.value) && (forall i :: 0 <= i && i < len(Seq(queue)) ==> Seq(queue)[i] == jarr_at(bytes, i, queue.list.first.value))
+//@   ensures [C12] null: jarr_kind(bytes, queue.list.first.value) == 2 ==> len(Seq(queue)) == 0
